@@ -14,9 +14,26 @@ var allDecodeSites = []string{"map.entry", "map.key", "map.value", "struct.read"
 
 var vocabPool = []string{"", "a", "b", "ab", "abc", "abd", "abcd", "a\x00", "\x00", "\xff\xfe", "\x80", "prefix-common-1", "prefix-common-2", "prefix-common-", "prefix-common-12", "USD", "EUR", "GBP", "status:ok", "status:failed", "héllo", "日本語", "x"}
 
+// collidingPairs are values that collide under weak keys an interning table
+// might be tempted to use: well-known 32-bit FNV-1a collisions, same length +
+// same first and last byte, same prefix / suffix, case and trailing-zero twins.
+var collidingPairs = [][2]string{
+	{"costarring", "liquid"}, {"declinate", "macallums"}, {"altarage", "zinke"}, {"altarages", "zinkes"},
+	{"abcd", "abxd"}, {"a-long-key-1-z", "a-long-key-2-z"}, {"xx", "x\x00x"}, {"Key", "key"}, {"ab", "ab\x00"},
+	{"0123456789abcdef0", "0123456789abcdef1"}, {"tail-a", "head-a"},
+}
+
 func makeVocab(r *engine.PRNG) []string {
 	n := 3 + r.Intn(10)
 	var v []string
+	if r.Intn(2) == 0 {
+		// both members of a colliding pair, in either order
+		pr := collidingPairs[r.Intn(len(collidingPairs))]
+		if r.Intn(2) == 0 {
+			pr[0], pr[1] = pr[1], pr[0]
+		}
+		v = append(v, pr[0], pr[1])
+	}
 	for i := 0; i < n; i++ {
 		switch r.Intn(5) {
 		case 0:
@@ -230,7 +247,11 @@ func GenC11(seed uint64, idx int) *Scenario {
 				ops = append(ops, Op{Kind: "scribble", Buf: 1 + r.Intn(2), Pat: scribblePats[r.Intn(len(scribblePats))], Arg: r.Intn(1000)})
 			case k < 10:
 				stn := c11StructTypes[r.Intn(len(c11StructTypes))]
-				op := Op{Kind: "marshalAppend", Type: stn, VSeed: r.Next() | 1, VSize: 2 + r.Intn(20), Vocab: vocab}
+				if r.Intn(3) == 0 {
+					stn = tn // any type, including top-level byte slices and strings
+				}
+				// Arg = how the caller prepares the destination buffer (see marshalAppendOp)
+				op := Op{Kind: "marshalAppend", Type: stn, VSeed: r.Next() | 1, VSize: 2 + r.Intn(20), Vocab: vocab, Arg: r.Intn(6)}
 				if r.Intn(2) == 0 {
 					op.Pat = "raw" // values that Marshal must leave as they are even though plenc normalises them
 				}
@@ -329,7 +350,12 @@ func GenC10(seed uint64, idx int) *Scenario {
 				op.Pat = "torn"
 				ops = append(ops, op)
 			default:
-				ops = append(ops, Op{Kind: "marshal", Type: tn, VSeed: r.Next() | 1, VSize: 2 + r.Intn(20), Vocab: vocab})
+				if r.Intn(2) == 0 {
+					// marshal the value sitting in the re-used target (same address as last time, new content)
+					ops = append(ops, Op{Kind: "marshalTarget", Type: tn, Target: 1 + slotFor(tn, mainType), Arg: r.Intn(3)})
+				} else {
+					ops = append(ops, Op{Kind: "marshal", Type: tn, VSeed: r.Next() | 1, VSize: 2 + r.Intn(20), Vocab: vocab})
+				}
 			}
 		}
 		sc.Tasks = append(sc.Tasks, ops)
